@@ -121,6 +121,19 @@ class Context:
             raise AnalysisBroken('enumerator %s not found (anchor vanished)' % name)
         return enums[name]
 
+    def emit_unit(self, names, flavour='vanilla', base='myth_if_native.c'):
+        """(file, kwargs) of a scratch translation unit that is `base` plus references to the static inline functions
+        `names`, so that their bodies are emitted and can be analysed together whichever library unit happens to use them.
+        Compiled with base's own flags; never linked.  Use as ctx.view(file, roots, stops, **kwargs)."""
+        srcdir, flags = self._src('src', flavour, base)
+        tag = hashlib.sha1(repr((sorted(names), flavour, base)).encode()).hexdigest()[:10]
+        path = os.path.join(self.wd.path, 'emit_%s.c' % tag)
+        if not os.path.exists(path):
+            with open(path, 'w') as fh:
+                fh.write('#include "%s"\n' % os.path.join(srcdir, base))
+                fh.write('void * mythverif_force_emit_%s[] = { %s };\n' % (tag, ', '.join('(void *)%s' % n for n in sorted(names))))
+        return path, {'flavour': flavour, 'area': 'emit', 'srcdir': srcdir, 'flags': list(flags)}
+
     def prefetch(self, items):
         """compile several (file, flavour, area) units in parallel"""
         with ThreadPoolExecutor(max_workers=16) as ex:
